@@ -2,7 +2,7 @@ use c18::tree::{Carry, Case, Form, Header, Item, Node, PushVia};
 use vcore::proptest::prelude::*;
 use vcore::Level;
 
-const RULE: &str = "a case is a program as data: a span tree (<=20 span nodes, depth <=5; forms: attribute on sync/async fn, new_span! with Frame::call / enter / in_future, guard: parameter) with emit! events, Traceparent::current()/SpanCtxt::current checks and yields, plus pushed incoming headers (unparsable -> documented fallback, valid sampled/unsampled of another trace, same trace id as the active one, all-zero, half-zero; through Traceparent::push, push(traceparent, tracestate) or header text), next-service hops (format current header, parse and push it on a fresh thread, run child spans there), same-service thread hops (carrying nothing / Frame::current(rt.ctxt()) / Traceparent::current().push() / both; by call or in_future) and joins of async tasks with a generated poll schedule; the sampler is a generated decision table indexed by call number that records its argument; the filter is TraceparentFilter optionally AND in_sampled_trace_filter(b). Run on a private runtime on a fresh thread and judged against a model of the active traceparent. Non-trivial = at least two root spans whose sampler decisions differ, or a pushed incoming header, or a (thread or service) hop.";
+const RULE: &str = "a case is a program as data: a span tree (<=20 span nodes, depth <=5; forms: attribute on sync/async fn, new_span! with Frame::call / enter / in_future, guard: parameter) with emit! events, Traceparent::current()/SpanCtxt::current checks and yields, plus pushed incoming headers (unparsable -> documented fallback, valid sampled/unsampled of another trace, same trace id as the active one, all-zero, half-zero; through Traceparent::push, push(traceparent, tracestate) or header text), next-service hops (format current header, parse and push it on a fresh thread, run child spans there), same-service thread hops (carrying nothing / Frame::current(rt.ctxt()) / Traceparent::current().push() / both; by call or in_future) and joins of async tasks with a generated poll schedule (optionally each task wrapped in Frame::current(rt.ctxt()).in_future, and then optionally with polls migrating to fresh threads); the sampler is a generated decision table indexed by call number that records its argument; the filter is TraceparentFilter optionally AND in_sampled_trace_filter(b). Run on a private runtime on a fresh thread and judged against a model of the active traceparent. Non-trivial = at least two root spans whose sampler decisions differ, or a pushed incoming header, or a (thread or service) hop.";
 
 const ASSUMPTIONS: [&str; 8] = [
     "ids of sampled spans are read from their own span events; the order of sampler calls is read from the log positions of span starts (never predicted); ids inside unsampled traces are learned from the first observation inside the span and must then stay stable and be restored",
@@ -63,7 +63,8 @@ fn body(depth_left: u32) -> BoxedStrategy<Vec<Item>> {
         1 => inner.clone().prop_map(|items| Item::Service { items }),
         1 => (prop_oneof![1 => Just(Carry::Nothing), 2 => Just(Carry::FrameCurrent), 2 => Just(Carry::TraceparentPush), 1 => Just(Carry::Both)], any::<bool>(), inner.clone())
             .prop_map(|(carry, fut, items)| Item::Hop { carry, fut, items }),
-        1 => (any::<bool>(), prop::collection::vec(inner, 1..4), prop::collection::vec(0u8..6, 0..10)).prop_map(|(carry, tasks, schedule)| Item::Join { carry, tasks, schedule }),
+        2 => (prop::bool::weighted(0.6), prop::bool::weighted(0.5), prop::collection::vec(inner, 1..4), prop::collection::vec(0u8..16, 0..10))
+            .prop_map(|(carry, migrate, tasks, schedule)| Item::Join { carry, migrate, tasks, schedule }),
     ];
     prop::collection::vec(item, 0..4).boxed()
 }
@@ -115,6 +116,8 @@ fn main() {
         s.require("roots-with-differing-decisions", 200);
         s.require("next-service-with-spans", 100);
         s.require("thread-hop-carried", 100);
+        s.require("frame-current-hop-with-spans", 100);
+        s.require("async-join-polls-migrate-threads", 100);
         s.gen("programs", s.n(20_000, 600_000), case, c18::check_case);
     })
 }
